@@ -37,6 +37,18 @@ func oracleC11(c *props.Case) props.Verdict {
 			}
 		}
 	}
+	// Linux: startup files reach the device by scp outside the console
+	// session; the tool announces every copy (unless run with -q).
+	if sc.Family == "linux" {
+		all := o.Run.Stdout + o.Run.Stderr + o.allLogs()
+		if i := strings.Index(all, "Executing "); i >= 0 && strings.Contains(all[i:], "scp") {
+			line := all[i:]
+			if j := strings.Index(line, "\n"); j >= 0 {
+				line = line[:j]
+			}
+			return props.FailV("linux:compare-copied-file-to-device", "compare run copies a file to the device: %s\n%s", line, o.Summary())
+		}
+	}
 	changed := strings.Contains(o.Run.Stderr, "*** device changed ***")
 	cmpFile := ""
 	for name, content := range o.Files {
